@@ -6,3 +6,5 @@ import AGV.Props.C11
 #print axioms AGV.Props.C11.c11_overlap_poly
 #print axioms AGV.Props.C11.c11_poly_partial
 #print axioms AGV.Props.C11.c11_pinned_upper
+#print axioms AGV.Props.C11.c11_poly_norepeat_anynames
+#print axioms AGV.Props.C11.c11_poly_norepeat
